@@ -21,7 +21,7 @@ LEVEL = "exploration"
 RULE = ("event sequences over {op in {get,set,setget,get_many,set_many} on a key owned by server i, advance by 1/11/101 virtual s, "
         "server i starts failing (refused, reset) / recovers}: all sequences of length 5 (thorough 6) for 2 servers x retry_attempts "
         "{0,1,2} x ignore_exc x pooling (retry_timeout 10, dead_timeout 100); seeded random sequences of length 20..80 over the full "
-        "alphabet (also delete/incr/touch/delete_many, advances 1/10/11/50/100/101/201, connect timeouts, 3 servers); a sample of "
+        "alphabet (also delete/incr/touch/delete_many, advances 1/10/11/50/100/101/201, connect timeouts, 3 servers, server 0 as a UNIX socket); a sample of "
         "leaves is extended by the recovery epilogue. Non-trivial = >=1 failed contact and a later key-addressed op on that "
         "server's key; distinct by the abstract-state path (rotation, failed/dead bookkeeping ages, health).")
 ASSUMPTIONS = [
@@ -61,7 +61,7 @@ def owned_keys(nodes, per=2):
 
 
 class Sim:
-    def __init__(self, nserv, retry_attempts, ignore_exc, pooling):
+    def __init__(self, nserv, retry_attempts, ignore_exc, pooling, unix=False):
         import pymemcache.client.hash as hashmod
         self.hashmod = hashmod
         self.clock = VClock(1_000_000.9)          # a clock with a fractional part (truncating it must not shorten a window)
@@ -71,12 +71,20 @@ class Sim:
         self.names = []
         self.servers = {}
         specs = []
+        self.addr2name = {}
         for i in range(nserv):
             host = "mc%d" % i
+            if unix and i == 0:
+                # server 0 is a UNIX socket: its identity is a str all the way through the fail-over bookkeeping
+                path = "/var/run/memcached/mc0.sock"
+                self.servers[path] = self.net.add_unix(path, RefServer(self.clock, name=path))
+                self.names.append(path)
+                specs.append(path)
+                self.addr2name[path] = path
+                continue
             self.servers["%s:11211" % host] = self.net.add_server(host, 11211, RefServer(self.clock, name=host))
             self.names.append("%s:11211" % host)
             specs.append((host, 11211))
-        self.addr2name = {}
         for (h, p), res in self.net.dns.items():
             for fam, sa in res:
                 for n in self.names:
@@ -392,8 +400,8 @@ class Sim:
 
 
 def run_sequence(res, cfg, seq, epilogue=False, label="exh"):
-    nserv, ra, ign, pooling = cfg
-    sim = Sim(nserv, ra, ign, pooling)
+    nserv, ra, ign, pooling = cfg[:4]
+    sim = Sim(nserv, ra, ign, pooling, *cfg[4:])
     path = []
     try:
         for ev in seq:
@@ -489,27 +497,30 @@ def shard(tier, seed, idx, n):
         path = run_sequence(res, cfg, seq, epilogue=(work // n) % 40 == 0)
         states.update(path)
     # targeted: a server stays down while the same multi-key write is repeated across the retry / give-up / dead phases
-    if idx == 0:
+    if True:
         for nserv in (2, 3):
             for ra in (0, 1, 2):
                 for ign in (False, True):
-                    for pool in (False, True):
+                    for pool, unix in ((False, False), (True, False), (False, True)):
                         for bad in range(nserv):
                             for kind in ("refused", "reset"):
                                 for opn in ("setmanyget_pairs", "setmanyget", "set_many", "setget_pair", "getmany_vs_get", "get"):
+                                    work += 1
+                                    if work % n != idx:
+                                        continue
                                     seq = [("op", opn, 0), ("fail", bad, kind)]
                                     gap = 9.5 if (opn, kind) in (("get", "refused"), ("set_many", "reset")) else 11
                                     for step in range(6):
                                         seq += [("op", opn, bad), ("adv", gap)]
                                     seq += [("ok", bad), ("adv", 101), ("op", opn, bad), ("adv", 101), ("op", opn, bad)]
-                                    path = run_sequence(res, (nserv, ra, ign, pool), seq, epilogue=False, label="targeted")
+                                    path = run_sequence(res, (nserv, ra, ign, pool, unix), seq, epilogue=False, label="targeted")
                                     states.update(path)
                                     res.count("targeted_sequences")
     rng = random.Random(seed * 15485863 + idx)
     count = 60 if tier == "quick" else 1500
     for i in range(count):
         nserv = rng.choice([2, 3])
-        cfg = (nserv, rng.choice([0, 1, 2]), rng.random() < 0.5, rng.random() < 0.3)
+        cfg = (nserv, rng.choice([0, 1, 2]), rng.random() < 0.5, rng.random() < 0.3, rng.random() < 0.25)
         path = run_sequence(res, cfg, random_sequence(rng, nserv), epilogue=True, label="rand")
         states.update(path)
         res.count("random_sequences")
